@@ -105,3 +105,38 @@ class PostScaleU(PostScale):
     """Undecorated subclass of a node with a transforming __post_init__."""
 
 # }}}
+
+
+# {{{ init-args (old-style) classes by NUMBER of init args, the boundary 0 included
+
+def _legacy(name, base, argnames):
+    """Old-style node class: __init__ stores the args, __getinitargs__ / init_arg_names declare
+    them; hashing and equality come from Expression (get_hash / is_equal over the init args)."""
+    def __init__(self, *args):
+        if len(args) != len(argnames):
+            raise TypeError(f"{name} takes {len(argnames)} arguments")
+        for n, v in zip(argnames, args):
+            object.__setattr__(self, n, v)
+
+    def __getinitargs__(self):
+        return tuple(getattr(self, n) for n in argnames)
+
+    return type(name, (base,), {
+        "__init__": __init__, "__getinitargs__": __getinitargs__,
+        "init_arg_names": tuple(argnames), "mapper_method": "map_" + name.lower(),
+        "__module__": __name__, "__qualname__": name})
+
+
+LegacyArgs0 = _legacy("LegacyArgs0", p.Expression, ())
+LegacyArgs1 = _legacy("LegacyArgs1", p.Expression, ("u",))
+LegacyArgs2 = _legacy("LegacyArgs2", p.Expression, ("u", "w"))
+LegacyArgs3 = _legacy("LegacyArgs3", p.Expression, ("u", "w", "t"))
+# no init args, over a field-less dataclass node (the generated pickling code defers to the
+# init-args protocol for such a subclass)
+LegacyLeaf0 = _legacy("LegacyLeaf0", p.Leaf, ())
+
+
+class LegacyArgs0U(LegacyArgs0):
+    """Undecorated subclass of the no-argument old-style class."""
+
+# }}}
